@@ -14,7 +14,8 @@ STD_CLASSES = ['VCPU', 'MEMORY_MB', 'DISK_GB']
 CUSTOM_CLASSES = ['CUSTOM_A', 'CUSTOM_B']
 STD_TRAITS = ['MISC_SHARES_VIA_AGGREGATE', 'HW_CPU_X86_AVX']
 CUSTOM_TRAITS = ['CUSTOM_T1', 'CUSTOM_T2', 'CUSTOM_T3']
-RATIOS = [0.5, 1.0, 1.0, 1.0, 1.1, 1.5, 2.0, 16.0, 0.29, 0.7]
+# (0.0 is a valid ratio - an inventory drained by its operator: capacity 0)
+RATIOS = [0.5, 1.0, 1.0, 1.0, 1.1, 1.5, 2.0, 16.0, 0.29, 0.7, 0.0, 1.0]
 
 
 def mkuuid(rng):
